@@ -316,6 +316,35 @@ def _with_e1(base_spec_fn, prop, quick_n, thorough_n, **extra):
     return f
 
 
-SPECS = {"C02": _with_e1(spec_c02, "C02", 100, 1500, max_ops=2), "C05": _with_e1(spec_c05, "C05", 100, 1500, max_ops=2),
-         "C20": _with_e1(spec_c20, "C20", 100, 1500, max_ops=2), "C18": spec_c18,
-         "C17": spec_c17, "C13": spec_c13, "C12": spec_c12, "C19": spec_c19, "C01": spec_c01}
+def _need(**mins):
+    def sanity(counters):
+        out = []
+        for k, m in mins.items():
+            key = k.replace("__", ":")
+            if counters.get(key, 0) < m:
+                out.append(f"counter {key!r} = {counters.get(key, 0)} < {m}")
+        return out
+
+    return sanity
+
+
+def _sane(fn, **mins):
+    def f(tier):
+        sp = fn(tier)
+        sp["sanity"] = _need(**mins)
+        return sp
+
+    return f
+
+
+SPECS = {
+    "C02": _sane(_with_e1(spec_c02, "C02", 100, 1500, max_ops=2), outcome__design=500, finds_completed_with_design=10),
+    "C05": _sane(_with_e1(spec_c05, "C05", 100, 1500, max_ops=3), outcome__design=500, c05_designs_checked=10),
+    "C20": _sane(_with_e1(spec_c20, "C20", 100, 1500, max_ops=3), flow_records_checked=1000, twin_evaluations=5),
+    "C18": _sane(spec_c18, tag__design__ok=3, tag__validate_only__valid=3, tag__validate_only__invalid=3),
+    "C17": _sane(spec_c17, round_trips_completed=50),
+    "C13": _sane(spec_c13, finds_completed_with_design=20),
+    "C12": _sane(spec_c12, reports=10, search_log_rows_checked=20),
+    "C19": _sane(spec_c19, reports=10, calendar_rows_checked=8760),
+    "C01": _sane(spec_c01, c01_designs_checked=10),
+}
